@@ -67,8 +67,10 @@ class PatchConflict(BzrError):
             patch_line: Expected line content from patch.
         """
         self.line_no = line_no
-        self.orig_line = orig_line.rstrip("\n")
-        self.patch_line = patch_line.rstrip("\n")
+        newline = b"\n" if isinstance(orig_line, bytes) else "\n"
+        self.orig_line = orig_line.rstrip(newline)
+        newline = b"\n" if isinstance(patch_line, bytes) else "\n"
+        self.patch_line = patch_line.rstrip(newline)
 
 
 class MalformedHunkHeader(PatchSyntax):
